@@ -69,6 +69,40 @@ structure Policy where
   dropML : Nat → Ex → Bool
   dropMR : Nat → Ex → Bool
 
+/-- what the policy can see of a child -/
+inductive Kind where
+  | atom (cls : Nat)
+  | un
+  | bin (o : Nat)
+  | node (k : Nat)
+  deriving DecidableEq, Repr
+
+/-- atoms are numbered `8 * id + cls` -/
+def kindOf : Ex → Kind
+  | .atom a => .atom (a % 8)
+  | .un _ => .un
+  | .bin _ o _ => .bin o
+  | .node k _ => .node k
+
+/-- the observed policy: which (outer, child kind, side) cells drop the parentheses -/
+structure Cells where
+  dropL : Nat → Kind → Bool
+  dropR : Nat → Kind → Bool
+  dropN : Kind → Bool
+  /-- the crate's ternary encodings: `BETWEEN ↦ AND`, `LIKE ↦ ESCAPE` -/
+  mixOf : Nat → Option Nat
+  /-- first / second operand of a mixfix form, under the mixfix operator -/
+  dropML : Nat → Kind → Bool
+  dropMR : Nat → Kind → Bool
+
+def policyOf (c : Cells) : Policy :=
+  { dropL := fun o e => c.dropL o (kindOf e)
+    dropR := fun o e => c.dropR o (kindOf e)
+    dropN := fun e => c.dropN (kindOf e)
+    mixOf := c.mixOf
+    dropML := fun o e => c.dropML o (kindOf e)
+    dropMR := fun o e => c.dropMR o (kindOf e) }
+
 def wrap (b : Bool) (ts : List Tok) : List Tok := if b then ts else Tok.lp :: (ts ++ [Tok.rp])
 
 mutual
